@@ -1,5 +1,5 @@
 """Which engine decides which property."""
-from . import book, sim, common as C
+from . import book, sim, py, common as C
 
 BOOK_ASSUMPTIONS = [
     "theorems are about the hand-written Lean model (lean/Bourse/Model); the model is tied to /repo by running both on the same histories on every invocation",
@@ -94,3 +94,22 @@ class SimEngine:
 _s = SimEngine()
 for p in ("C09", "C16", "C17", "C20"):
     ENGINES[p] = _s
+
+
+class PyEngine:
+    def build(self):
+        ok, log = C.build_harness(("drive",))
+        if not ok:
+            return ok, log
+        return py.build_ext()
+
+    def check(self, prop, tier, seed, verdict, workdir):
+        return py.check(prop, tier, seed, verdict, workdir)
+
+    def replay(self, prop, path):
+        return py.replay(prop, path)
+
+
+_p = PyEngine()
+for p in ("C18", "C19"):
+    ENGINES[p] = _p
